@@ -10,6 +10,7 @@ import (
 	"crypto/sha256"
 	"encoding/hex"
 	"fmt"
+	"hash/fnv"
 	"io"
 	"net"
 	"os"
@@ -28,7 +29,7 @@ func Seq() int64 { return globalSeq.Add(1) }
 
 // Request is what a backend received on one connection.
 type Request struct {
-	Trailers [][2]string // trailer fields received after a chunked body
+	Trailers         [][2]string // trailer fields received after a chunked body
 	Seq              int64
 	Backend          string
 	Method           string
@@ -124,8 +125,8 @@ type Backend struct {
 	healthHits   int
 	modelHits    int
 	plan         func(req *Request) Behaviour
-	HealthStatus int    // status returned for health probes (0 => 200)
-	HealthFail   string // "" | close
+	HealthStatus int           // status returned for health probes (0 => 200)
+	HealthFail   string        // "" | close
 	HealthDelay  time.Duration // the health endpoint answers this late (real time)
 	ModelsBody   func() []byte
 	ModelsStatus int
@@ -141,8 +142,9 @@ type Backend struct {
 	wg           sync.WaitGroup
 }
 
-func (b *Backend) URL() string      { return fmt.Sprintf("http://127.0.0.1:%d", b.Port) }
-func (b *Backend) SideURL() string  { return fmt.Sprintf("http://127.0.0.1:%d", b.SidePort) }
+func (b *Backend) URL() string     { return fmt.Sprintf("http://127.0.0.1:%d", b.Port) }
+func (b *Backend) SideURL() string { return fmt.Sprintf("http://127.0.0.1:%d", b.SidePort) }
+
 // OpenConns counts connections inside an exchange; kept-alive connections waiting for a next request are not counted.
 func (b *Backend) OpenConns() int64 {
 	b.idleMu.Lock()
@@ -688,6 +690,14 @@ func OpenAIModels(names ...string) []byte {
 	return []byte(sb.String())
 }
 
+// nameDigest: a digest is a function of the model, not of its position in a listing (two names with one digest are one
+// model for the unifier: a positional digest makes a listing that shrinks look like a model that was renamed).
+func nameDigest(name string) uint64 {
+	h := fnv.New64a()
+	h.Write([]byte(name))
+	return h.Sum64() % 1000000000000000000
+}
+
 // ModelsFor renders a model listing in the format the given endpoint type's parser expects.
 func ModelsFor(typ string, names ...string) []byte {
 	switch typ {
@@ -698,7 +708,7 @@ func ModelsFor(typ string, names ...string) []byte {
 			if i > 0 {
 				sb.WriteByte(',')
 			}
-			fmt.Fprintf(&sb, `{"name":%q,"model":%q,"modified_at":"2024-01-01T00:00:00Z","size":1000,"digest":"sha256:%064d","details":{"family":"llama","parameter_size":"7B","quantization_level":"Q4_0"}}`, n, n, i+1)
+			fmt.Fprintf(&sb, `{"name":%q,"model":%q,"modified_at":"2024-01-01T00:00:00Z","size":1000,"digest":"sha256:%064d","details":{"family":"llama","parameter_size":"7B","quantization_level":"Q4_0"}}`, n, n, nameDigest(n))
 		}
 		sb.WriteString(`]}`)
 		return []byte(sb.String())
